@@ -58,7 +58,7 @@ def run(chk: Check) -> int:
         rng = chk.rng("case", k)
         lk = rng.choice(["mock", "mock", "Learner1D", "Learner1D", "SequenceLearner", "AverageLearner"])
         spec = I.random_spec(rng, faults=rng.random() < 0.1, cancel=True, learner=lk, log=True, big=not chk.quick)
-        col.add(I.run_case(spec, I.RandomSched(rng)), f"seed{chk.seed}/{k}")
+        col.add(I.safe_run(col, spec, I.RandomSched(rng), f"seed{chk.seed}/{k}"), f"seed{chk.seed}/{k}")
     exh = {}
     plans = [(kind, nt, 4, 3) for kind in I.KINDS for nt in (2, 3)] if chk.quick else \
         [(kind, nt, T, g) for kind in I.KINDS for nt in (1, 2, 3) for T in (2, 4, 5) for g in (T, T - 1)]
@@ -69,10 +69,10 @@ def run(chk: Check) -> int:
             cnt = 0
             if col.enough():
                 break
-            for rec in I.enumerate_scheds(lambda s, spec=spec: I.run_case(spec, s), orders="sub", cancel=True, limit=60000):
+            for rec in I.enumerate_scheds(lambda s, spec=spec: I.safe_run(col, spec, s, "exhaustive"), orders="sub", cancel=True, limit=60000):
                 cnt += 1
                 col.add(rec, f"exhaustive {lk} {kind} ntasks={nt} evals<={T} goal={g} #{cnt}")
-                if rec.machinery or col.enough():
+                if rec is None or rec.machinery or col.enough():
                     break
             exh[f"{lk} {kind} ntasks={nt} evals<={T} goal={g}"] = cnt
     col.flush()
